@@ -20,6 +20,7 @@ var emptyIface = types.NewInterfaceType(nil, nil).Complete()
 
 type jsonUnsupported struct{ what string }
 type jsonPending struct{}
+type jsonFailed struct{ msg string }
 
 func (ex *Exec) methodNamed(t types.Type, name string) *ssa.Function {
 	ms := ex.Prog.MethodSets.MethodSet(t)
@@ -117,7 +118,7 @@ func (ex *Exec) toGoDeep(st *State, v Value, t types.Type) interface{} {
 				}
 				tup := r.(Tuple)
 				if e, _ := tup[1].(Iface); e.T != nil {
-					panic(jsonUnsupported{"MarshalJSON returned an error"})
+					panic(jsonFailed{"json: error calling MarshalJSON for type " + t.String()}) // Marshal returns a MarshalerError
 				}
 				cs, ok := Str{ex.bytesOf(st, tup[0])}.Concrete()
 				if !ok {
@@ -126,11 +127,76 @@ func (ex *Exec) toGoDeep(st *State, v Value, t types.Type) interface{} {
 				return json.RawMessage(cs)
 			}
 		}
-		// other pointers to structs: keep them opaque
+		if t != nil {
+			if pt, ok := t.Underlying().(*types.Pointer); ok {
+				// encoding/json follows pointers
+				return ex.toGoDeep(st, ex.load(st, x), pt.Elem())
+			}
+		}
 		panic(jsonUnsupported{fmt.Sprintf("pointer value of type %v", t)})
+	case Struct:
+		if t != nil {
+			if stt, ok := t.Underlying().(*types.Struct); ok {
+				if m := ex.methodNamed(t, "MarshalJSON"); m != nil {
+					panic(jsonUnsupported{fmt.Sprintf("MarshalJSON on value type %v", t)})
+				}
+				ex.jsonDepth++
+				defer func() { ex.jsonDepth-- }()
+				if ex.jsonDepth > 60 {
+					panic(jsonUnsupported{"cyclic or very deep structure"})
+				}
+				// encoding/json: exported fields by name, embedded structs flattened, unexported fields skipped
+				// (rendered as a map: the key order of the text differs from a struct's field order, the content does not)
+				out := map[string]interface{}{}
+				for i := 0; i < stt.NumFields(); i++ {
+					f := stt.Field(i)
+					ft := f.Type()
+					if f.Embedded() {
+						et := ft
+						if p, ok := ft.Underlying().(*types.Pointer); ok {
+							et = p.Elem()
+						}
+						if _, isStruct := et.Underlying().(*types.Struct); isStruct {
+							if sub, ok := ex.toGoDeep(st, x[i], ft).(map[string]interface{}); ok {
+								for k, v := range sub {
+									if _, has := out[k]; !has {
+										out[k] = v
+									}
+								}
+							}
+							continue
+						}
+					}
+					if !f.Exported() {
+						continue
+					}
+					switch ft.Underlying().(type) {
+					case *types.Signature:
+						if c, _ := x[i].(Closure); c.Fn != nil {
+							out[f.Name()] = func() {} // rejected by encoding/json exactly as natively
+						} else {
+							out[f.Name()] = (func())(nil)
+						}
+						continue
+					case *types.Chan:
+						out[f.Name()] = make(chan int)
+						continue
+					}
+					out[f.Name()] = ex.toGoDeep(st, x[i], ft)
+				}
+				return out
+			}
+		}
+		panic(jsonUnsupported{fmt.Sprintf("struct value of type %v", t)})
+	case Closure:
+		if x.Fn == nil {
+			return (func())(nil)
+		}
+		return func() {}
 	}
 	panic(jsonUnsupported{fmt.Sprintf("%T", v)})
 }
+
 
 func (ex *Exec) fromGoDeep(st *State, g interface{}) Value {
 	C := ex.C
@@ -194,7 +260,17 @@ func registerJSON(ex *Exec) {
 	}
 	marshal := func(indent bool) Intrinsic {
 		return func(ex *Exec, st *State, args []Value, call ssa.CallInstruction) (Value, bool) {
-			return guard(ex, st, func() Value {
+			return guard(ex, st, func() (res Value) {
+				defer func() {
+					if r := recover(); r != nil {
+						if jf, ok := r.(jsonFailed); ok {
+							res = Tuple{Slice{}, ex.nativeError(st, jf.msg)}
+							return
+						}
+						panic(r)
+					}
+				}()
+				ex.jsonDepth = 0
 				g := ex.toGoDeep(st, args[0], nil)
 				var b []byte
 				var err error
